@@ -5,7 +5,7 @@ import json, sys
 CHECKS = {
  "C04": dict(level="exploration", design="3/C04",
    technique="property-based testing: seeded proptest generators over byte-stream recipes and call partitions, differential against an independent reference gear chunker, metamorphic locality relation; thorough tier adds coverage-guided fuzzing: libFuzzer (cargo-fuzz) target chunker_diff with the same oracle inside the target, fixed -runs in 8 processes, crash = shrunk replay + VIOLATION",
-   text="Generated-input search (tens of thousands of streams x call partitions per run, all power-of-two targets 2^7..2^16) compared boundary-for-boundary with an independently written reference chunker and chunk hash; exploration is the right level because the property quantifies over unbounded byte streams and call partitions, which can only be sampled - the reference rule makes each sample a full functional check rather than a self-consistency check.",
+   text="Generated-input search (tens of thousands of streams x call partitions per run, power-of-two targets 2^7..2^16, and 2^14..2^27 with multi-maximum-chunk streams in the large-target stream) compared boundary-for-boundary with an independently written reference chunker and chunk hash; exploration is the right level because the property quantifies over unbounded byte streams and call partitions, which can only be sampled - the reference rule makes each sample a full functional check rather than a self-consistency check.",
    note="Trusts: the reference chunker in harness/src/refs/chunker.rs (written from the documented rule), the gear table data of the gearhash crate, the blake3 crate. Divisor/multiplier fixed at the shipped 8 and 2."),
  "C06": dict(level="exploration", design="3/C06",
    technique="property-based testing: seeded proptest generators over chunk lists / byte strings / hash text, differential against an independent Merkle reference and across all in-repo code paths, metamorphic change/swap/insert/drop relations, committed golden vectors; thorough tier adds coverage-guided fuzzing: libFuzzer (cargo-fuzz) target hash_text and merkle_tree with the same oracle inside the target, fixed -runs in 8 processes, crash = shrunk replay + VIOLATION",
@@ -20,8 +20,8 @@ CHECKS = {
    text="Each generated (object, claimed hash) pair is run through both validators and the footer parser; acceptance is checked against a reference decoder's view of decodability, recomputed hash and footer consistency, canonical valid objects must be accepted for their own hash only, and panics / oversized allocation requests are violations. Exploration: mutation space is sampled with region-aware generators rather than enumerated.",
    note="Trusts harness/src/refs/xorb.rs and lz4_flex. The streaming validator is allowed to ignore version-0 footers and accept footer-less objects (documented behaviour); zero-chunk objects are outside the valid-object clause."),
  "C05": dict(level="exploration", design="3/C05",
-   technique="property-based testing: seeded proptest generators over xorb universes with engineered 64-bit prefix collisions, query runs (present / absent / partial / past-the-end / adversarial header hash) and ShardFileManager operation histories incl. HMAC-keyed exports; oracle = map model of the universe (soundness of positive answers)",
-   text="Every positive dedup answer from the in-memory index, a serialized shard and shard-manager histories (flush, planted plain and keyed shards under up to 3 keys and all include flags, re-open, consolidation) is checked against the universe of xorbs: named xorb exists, range fits, hashes equal the query prefix, byte count is the sum. Exploration over generated contents/histories; hit rate on expected-present runs is reported to expose vacuity.",
+   technique="property-based testing: seeded proptest generators over xorb universes with engineered 64-bit prefix collisions, query runs (present / absent / partial / past-the-end / adversarial header hash) and ShardFileManager operation histories incl. HMAC-keyed exports; oracle = map model of the universe (soundness of positive answers); model-based testing of FileDeduper against a data interface that is truthful by construction, in child processes with MAX_XORB_CHUNKS 3 / 8192 / 200000 and boundary-biased run lengths and repeat positions (2^k-1 / 2^k / 2^k+1 up to 140000)",
+   text="Every positive dedup answer from the in-memory index, a serialized shard and shard-manager histories (flush, planted plain and keyed shards under up to 3 keys and all include flags, re-open, consolidation) is checked against the universe of xorbs: named xorb exists, range fits, hashes equal the query prefix, byte count is the sum; the same is demanded of every segment of the file record FileDeduper builds from index hits, partly consumed hits and references into the xorb it is building. Exploration over generated contents/histories; hit rate on expected-present runs is reported to expose vacuity.",
    note="Soundness only (completeness is C11's subject). Queries non-empty. Trusts the map model in harness/src/props/c05.rs."),
  "C09": dict(level="exploration", design="3/C09",
    technique="property-based testing: seeded proptest generators over shard contents with engineered truncated keys (extremes, clusters, up to 7 per prefix) and raw sorted tables with duplicate runs; oracle = the map model the shard was built from and a linear-scan model of the on-disk search; reader differential (seekable / streaming sync+async / minimal); thorough tier adds coverage-guided fuzzing: libFuzzer (cargo-fuzz) target sorted_search with the same oracle inside the target, fixed -runs in 8 processes, crash = shrunk replay + VIOLATION",
@@ -64,7 +64,7 @@ CHECKS = {
    text='Per generated scenario the fault-free run fixes the list of store calls and each is then failed once (exhaustive over single faults), with further random multi-fault / delay plans; the call log must show every shard upload preceded by successful puts of all xorbs its records reference, an injected failure must surface as an error of add_data / finish / finalize, and a session reporting success must download byte-exactly. Fault enumeration is the right level: the property quantifies over which call fails.',
    note="Runs through the repository's local file-system store (LocalClient) wrapped in a tracing client injected through the guarded hook; configurations are process environments (debug-assertion builds read the size constants from HF_XET_*). Concurrent cleaning samples OS schedules."),
  "C12": dict(level="exploration", design="3/C12",
-   technique='property-based testing with stateful histories: generated put / get / re-open / damage programs (bit bursts, truncation, extension, deletions, junk and cache-item-shaped names at every directory level, renames, swaps, identity-preserving range forgeries) and concurrent batches under a harness-owned schedule (guarded schedule points); oracle = virtual-xorb model (every chunk a pure function of key and index), panics caught, journaled child processes',
+   technique='property-based testing with stateful histories: generated put / get / re-open / damage programs (bit bursts, truncation, extension, deletions, junk and cache-item-shaped names at every directory level, renames, swaps, identity-preserving range forgeries) and concurrent batches under a harness-owned schedule (guarded schedule points); plus a stream of items with up to 140000 chunks whose counts, start indices and sub-range reads are biased to 2^k-1 / 2^k / 2^k+1; oracle = virtual-xorb model (every chunk a pure function of key and index), panics caught, journaled child processes',
    text="Every hit returned during generated histories (sequential, and 2-3 threads interleaved by generated schedules) must equal the slice of the key's virtual xorb; damaged / planted / renamed entries must turn into misses or errors after re-open; initialize, put and get must not panic. Exploration over histories, damage programs and schedules.",
    note='Forged entries (renamed / planted under a name that keeps the length+CRC identity but claims another range): the content of hits cannot be judged by any implementation of this format, so after a forge only panics are judged (stream forged). The cache crate is built without its debug-only assertions (production semantics). Interleavings at schedule-point granularity.'),
  "C13": dict(level="exploration", design="3/C13",
@@ -72,7 +72,7 @@ CHECKS = {
    text='At every quiescent point the reported item count and byte total must equal the tracked entries, every cache file on disk must be tracked, after reading entries back totals must equal the files on disk (entries that lost their file to a racing deletion excepted, as the property allows), and the byte total never exceeds the capacity after a put; re-opening with the same capacity preserves this. Canonical pairs are enumerated exhaustively at schedule-point granularity, larger batches are sampled.',
    note='Interleavings at the granularity of the guarded schedule points (outside the state lock, around every file-system effect), not instructions. Eviction choice seeded through the guarded hook. No item larger than the capacity.'),
  "C17": dict(level="exploration", design="3/C17",
-   technique='property-based testing: generated reconstruction plans (terms, enclosing fetch ranges, byte ranges trimmed as a server does) executed by RemoteClient against an in-process HTTP range server with generated response delays; oracle = slice of concatenated term data; differential sequential vs parallel writer and no-cache / cold / warm cache; NUM_CONCURRENT_RANGE_GETS varied per child process',
+   technique='property-based testing: generated reconstruction plans (terms, enclosing fetch ranges, byte ranges trimmed as a server does) executed by RemoteClient against an in-process HTTP range server with generated response delays; oracle = slice of concatenated term data; differential sequential vs parallel writer and no-cache / cold / warm cache; NUM_CONCURRENT_RANGE_GETS varied per child process; a stream of files and byte ranges of 2^32 +- delta bytes compared term by term from disk',
    text='Each generated plan is reconstructed four times (both writers, cache off / cold / warm) and the output file and reported length are compared with the requested slice of the concatenated term data computed independently. Exploration over plans, byte ranges, delays and concurrency settings.',
    note='URLs unique per (xorb, fetch range); byte ranges inside the file; loopback HTTP server stands in for the blob store; completion orders perturbed, not enumerated.'),
  "C19": dict(level="fault_enumeration", design="3/C19",
@@ -80,7 +80,7 @@ CHECKS = {
    text="For each generated scenario (operation x prior history) EVERY point between two file-system effects of the operation is exercised - the process is killed at the entry of each mutating system call in turn - and the directory is then re-opened and checked. Exhaustive per scenario over crash points under exactly the property's crash model; scenarios are sampled.",
    note='Process-stop model only (completed system calls persist). Relies on strace 6.1 injection semantics; each injected run is re-traced and must have died at the intended call, otherwise the point is skipped and counted.'),
  "C20": dict(level="exploration", design="3/C20",
-   technique='property-based testing of event scripts: calls / gate releases / yields on a current-thread runtime with a paused virtual clock and a generated plan of yields at guarded points inside Group::work (deterministic, hangs detected by a virtual 1-hour timeout), and the same scripts on 2-4 worker multi-thread runtimes (liveness there by relative progress, no time threshold); oracle = invariants over the logged call intervals, task starts and task execution intervals (no two executions for one key overlap)',
+   technique='property-based testing of event scripts: calls / gate releases / yields on a current-thread runtime with a paused virtual clock and a generated plan of yields at guarded points inside Group::work (deterministic, hangs detected by a virtual 1-hour timeout), and the same scripts on 2-4 worker multi-thread runtimes (liveness there by relative progress, no time threshold); plus flights joined by up to 140000 callers with counts biased to 2^8 / 2^16 / 2^17 and neighbours on the paused clock; oracle = invariants over the logged call intervals, task starts and task execution intervals (no two executions for one key overlap)',
    text="Each script's event log is checked: one task start per owning call, owners get their own outcome, every waiter's result is the outcome of an overlapping owner of the same key (value, error payload or panic notification), executions of two tasks of one key never overlap, nobody hangs. Exploration over scripts and yield plans; liveness is decided on the virtual clock.",
    note='Callers are not cancelled. Mode B samples OS schedules; there a caller counts as waiting forever only by relative progress (all gates released, all started tasks finished, several rounds of fresh tasks and flights completed by the same runtime meanwhile), which assumes tokio polls a woken task before an unbounded number of later-spawned ones; a plain time limit is inconclusive (exit 2).'),
 }
